@@ -16,6 +16,7 @@ struct HistConfig {
     bool pairMode = false;  // C06: pairs of histories, operator==
     unsigned maxLen = 80;
     unsigned maxN = 7;
+    unsigned scaleEvery = 50; // every k-th history is a "scale" history: 12-70 vertices, a hub, hundreds of calls, checked every 8th call
 };
 
 struct Runner {
@@ -43,9 +44,18 @@ inline const char *goneName(int g) {
 // recently touched vertices.
 struct PairPicker {
     VertexIndex last1 = 0, last2 = 0;
+    int hub = -1; // scale mode: half of the fresh pairs touch this vertex, so that it collects dozens of neighbours
     template <class Map> Edge pick(Rng &r, unsigned n, const Map &present, bool directed, int wantPresent /* -1 any, 0 absent-ish, 1 present-ish */) {
         Edge e;
         unsigned roll = r.u(100);
+        if (hub >= 0 && (unsigned)hub < n && wantPresent != 1 && r.chance(1, 2)) {
+            e.first = (VertexIndex)hub;
+            e.second = r.u(n);
+            if (r.chance(1, 3)) std::swap(e.first, e.second);
+            last1 = e.first;
+            last2 = e.second;
+            return e;
+        }
         bool usePresent = !present.empty() && (wantPresent == 1 ? roll < 80 : wantPresent == 0 ? roll < 15 : roll < 45);
         if (usePresent) {
             auto it = present.begin();
